@@ -1,4 +1,4 @@
-"""C15 -- scopes and name tables agree with Python's symbol table (VGC rules R15.1-R15.14)."""
+"""C15 -- scopes and name tables agree with Python's symbol table (VGC rules R15.1-R15.16)."""
 from __future__ import annotations
 
 import ast
@@ -80,6 +80,8 @@ def check(ctx, res) -> None:
     from .common import import_binding_rule
 
     import_binding_rule(ctx, res, "R15.12")
+    sibling_search_rule(ctx, res, "R15.15")
+    comprehension_sees_parent_rule(ctx, res, "R15.16")
 
 
 def _check_main(ctx, res) -> None:
@@ -510,3 +512,97 @@ def region_interval_rule(ctx, res, rule: str) -> None:
                     "Scope.in_region excludes the first offset of the region: in `sum(x for x in xs)` the generator expression's region starts at the first "
                     "`x`, which is therefore looked up in the enclosing scope and resolves to an outer variable of the same name", function=f.qualname)
     res.floor(rule, "lower-bound comparisons in Scope.in_region", n, 1)
+
+
+def sibling_search_rule(ctx, res, rule: str) -> None:
+    """(shared C15 / C02 / C20) Which scope holds an OFFSET is found by looking at every child scope.  The children are
+    collected in the order the visitor meets them -- `ast` field order, which is not source order (a conditional expression
+    visits its test before its body, a dict display all keys before all values) -- so the search may leave the loop over
+    the siblings early only because it FOUND the child that contains the offset, never because a sibling "starts after" it."""
+    from ..cfg import CFG
+    idx = ctx.idx
+    f = idx.need_func("rope.base.pyscopes._HoldingScopeFinder.get_holding_scope_for_offset")
+    cfg = CFG(f.node)
+    ps = f.call_params()
+    off = next((p for p in ps if "offset" in p), None)
+    if off is None:
+        raise AnalysisError("anchor=get_holding_scope_for_offset: offset parameter not found")
+    scope_lists = {t.id for x in walk_local(f.node) if isinstance(x, ast.Assign) and isinstance(x.value, ast.Call) and call_name(x.value) == "get_scopes"
+                   for t in x.targets if isinstance(t, ast.Name)}
+    loops = [l for l in walk_local(f.node) if isinstance(l, ast.For) and (
+        (isinstance(l.iter, ast.Call) and call_name(l.iter) == "get_scopes") or (isinstance(l.iter, ast.Name) and l.iter.id in scope_lists))]
+    if not loops:
+        raise AnalysisError("anchor=get_holding_scope_for_offset: loop over the child scopes not found")
+
+    def contains(gs) -> bool:
+        if any(pol and isinstance(t, ast.Call) and call_name(t) == "in_region" for t, pol in gs):
+            return True
+        lo = hi = False
+        for t, pol in gs:
+            if not isinstance(t, ast.Compare):
+                continue
+            terms = [t.left] + list(t.comparators)
+            for a, op, b in zip(terms, t.ops, terms[1:]):
+                a_off, b_off = isinstance(a, ast.Name) and a.id == off, isinstance(b, ast.Name) and b.id == off
+                if a_off == b_off:
+                    continue
+                # normalise to  offset OP other
+                o = type(op) if a_off else {ast.Lt: ast.Gt, ast.Gt: ast.Lt, ast.LtE: ast.GtE, ast.GtE: ast.LtE}.get(type(op))
+                if (o in (ast.GtE, ast.Gt) and pol) or (o in (ast.Lt, ast.LtE) and not pol):
+                    lo = True   # offset is at/after something (the start)
+                if (o in (ast.Lt, ast.LtE) and pol) or (o in (ast.GtE, ast.Gt) and not pol):
+                    hi = True   # offset is before something (the end)
+        return lo and hi
+
+    n = 0
+    for lp in loops:
+        inside = {id(x) for st in lp.body for x in ast.walk(st)}
+        for nd in cfg.nodes:
+            if nd.kind != "stmt" or not isinstance(nd.ast, (ast.Break, ast.Return)) or id(nd.ast) not in inside:
+                continue
+            n += 1
+            ok = contains(cfg.guards(nd.id))
+            res.add(rule, f"get_holding_scope_for_offset|early-exit#{n}", ok, f"{f.unit.rel}:{nd.lineno}",
+                    "the sibling loop is left early only when the child containing the offset was found" if ok else
+                    f"the loop over the child scopes is left (line {nd.lineno}) although no child containing the offset was found -- on the assumption that the "
+                    "children are sorted by position.  They are in ast field order: in `A(x for x in p) if B(y for y in q) else 0` the scope of the test comes "
+                    "first, an offset inside the body's comprehension is smaller than that sibling's start, and the position is attributed to the ENCLOSING "
+                    "scope (its loop variable resolves to an outer name)", function=f.qualname)
+    res.floor(rule, "early exits of the sibling search", n, 1)
+
+
+def comprehension_sees_parent_rule(ctx, res, rule: str) -> None:
+    """(shared C15 / C01) A comprehension's first iterable is evaluated in the scope the comprehension is written in -- a
+    class body included -- and rope's enclosing-scope lookup SKIPS class scopes (R01.1).  The comprehension scope therefore
+    takes the names of its parent scope into its own table, whatever kind of scope the parent is: the statement that
+    seeds `self.names` from `self.parent.get_names()` is not conditional on the parent's kind."""
+    from ..cfg import CFG
+    idx = ctx.idx
+    f = idx.need_func("rope.base.pyscopes.ComprehensionScope._visit_comprehension")
+    cfg = CFG(f.node)
+    seeds = []
+    for nd in cfg.nodes:
+        if nd.kind != "stmt" or nd.ast is None:
+            continue
+        parent_names = [c for c in calls_in(nd.ast) if call_name(c) == "get_names" and isinstance(c.func, ast.Attribute)
+                        and is_self_attr(c.func.value, "parent")]
+        if not parent_names:
+            continue
+        into_names = (isinstance(nd.ast, ast.Assign) and any(is_self_attr(t, "names") for t in nd.ast.targets)) or any(
+            isinstance(c.func, ast.Attribute) and c.func.attr == "update" and is_self_attr(c.func.value, "names") for c in calls_in(nd.ast))
+        if into_names:
+            seeds.append(nd)
+    if not seeds:
+        res.add(rule, "ComprehensionScope._visit_comprehension|parent-names", False, f.where,
+                "the comprehension scope no longer takes the names of its parent scope into its own table: a class attribute used as the iterable of a "
+                "comprehension in the class body is invisible (enclosing lookup skips class scopes), so renaming the attribute leaves that use behind",
+                function=f.qualname)
+        return
+    for k, nd in enumerate(seeds, 1):
+        kind_tests = [t for t, pol in cfg.guards(nd.id) if isinstance(t, ast.Call) and call_name(t) == "isinstance"]
+        ok = not kind_tests
+        res.add(rule, f"ComprehensionScope._visit_comprehension|parent-names#{k}", ok, f"{f.unit.rel}:{nd.lineno}",
+                "the parent's names are taken over whatever kind of scope the parent is" if ok else
+                f"the parent's names are taken over only when `{ast.unparse(kind_tests[0])}`: for a comprehension written directly in a CLASS body the class "
+                "attributes are not in its table, and the enclosing lookup skips class scopes -- `doubled = [i * 2 for i in items]` no longer resolves `items` "
+                "to the class attribute, rename leaves it behind (NameError or a module global of the same name)", function=f.qualname)
